@@ -262,7 +262,12 @@ class WorstFirstSolver:
         o.set("timeout", 10000)
         o.add(self.inner.assertions())
         h = o.maximize(self.target) if self.is_min else o.minimize(self.target)
-        if o.check() == z3.sat and z3.is_int_value(h.value()):
+        try:
+            worst = o.check() == z3.sat and z3.is_int_value(h.value())
+        except z3.Z3Exception:
+            # z3.Optimize refuses quantified constraints (concurrent buffers): any model is a legitimate answer
+            worst = False
+        if worst:
             self._model = o.model()
         else:
             self._model = self.inner.model()
